@@ -66,18 +66,25 @@ func sop(kind string, fid p9p.Fid, rest ...any) SOp {
 	return o
 }
 
-// c14Pairs: every unordered pair of operations colliding on fid 1, for a
-// closed directory fid and for an open file fid.
-func c14Pairs() []c14Spec {
+// c14Collide: the operations that collide on fid 1, for a closed directory
+// fid and for an open file fid, with the setup that binds it.
+func c14Collide() (dirSetup, dirOps, fileSetup, fileOps []SOp) {
 	attach0 := sop("attach", 0)
-	dirSetup := []SOp{attach0, sop("walk", 0, p9p.Fid(1), []string{"a"})}
-	fileSetup := []SOp{attach0, sop("walk", 0, p9p.Fid(1), []string{"a", "b"}), sop("open", 1, p9p.ORDWR)}
-	dirOps := []SOp{
+	dirSetup = []SOp{attach0, sop("walk", 0, p9p.Fid(1), []string{"a"})}
+	fileSetup = []SOp{attach0, sop("walk", 0, p9p.Fid(1), []string{"a", "b"}), sop("open", 1, p9p.ORDWR)}
+	dirOps = []SOp{
 		sop("stat", 1), sop("wstat", 1), sop("clunk", 1), sop("remove", 1), sop("open", 1, p9p.OREAD),
 		sop("walk", 1, p9p.Fid(2), []string{}), sop("walk", 1, p9p.Fid(3), []string{"b"}), sop("walk", 1, p9p.Fid(1), []string{"d"}),
 		sop("walk", 1, p9p.Fid(4), []string{"b", "x"}), sop("create", 1, "n", uint32(0644), p9p.ORDWR), sop("attach", 5, p9p.Fid(1)),
 	}
-	fileOps := []SOp{sop("read", 1), sop("write", 1), sop("stat", 1), sop("wstat", 1), sop("clunk", 1), sop("remove", 1), sop("open", 1, p9p.OREAD), sop("walk", 1, p9p.Fid(2), []string{})}
+	fileOps = []SOp{sop("read", 1), sop("write", 1), sop("stat", 1), sop("wstat", 1), sop("clunk", 1), sop("remove", 1), sop("open", 1, p9p.OREAD), sop("walk", 1, p9p.Fid(2), []string{})}
+	return
+}
+
+// c14Pairs: every unordered pair of operations colliding on fid 1, for a
+// closed directory fid and for an open file fid.
+func c14Pairs() []c14Spec {
+	dirSetup, dirOps, fileSetup, fileOps := c14Collide()
 	var out []c14Spec
 	name := func(o SOp) string {
 		n := o.Kind
